@@ -158,6 +158,15 @@ add("C05", "Hypothesis-generated batches / parameters / optimizers per update ro
     "checked; step-by-step isolation inside whole training loops only through td7._train_step and the post-run checks.",
     "DESIGN.md §5 C05")
 
+add("C03", "Hypothesis-generated batches / parameters / hyper-parameters per loss vs per-sample float64 references built from the modules' own forward passes; independently written jax objectives for gradients; exact-zero gradient, bitwise non-interference and permutation metamorphic relations",
+    "Thirteen sub-checks (DQN, Nature-DQN, DDQN, PER-DDQN, DDPG, TD3, TD3+LAP, SAC, clipped double-Q, SALE embedding, TD7 critic update, "
+    "MR.Q loss, model-based encoder loss): value and auxiliary outputs against the docstring formula per sample, gradient of the trained "
+    "module against a constant-target objective, exactly zero gradient w.r.t. targets and bootstrap inputs, bitwise invariance when "
+    "successors of terminated rows are replaced, batch-permutation invariance, batch size 1 matches or raises.",
+    "Double-Q losses read as the sum over the two critics of the per-critic mean loss; TD7 clause 3 checked as byte-identical targets after "
+    "the call (the function performs its own update); SAC permutation invariance with a deterministic probe policy.",
+    "DESIGN.md §5 C03")
+
 NOT_APPLICABLE = {}
 
 
